@@ -6,6 +6,7 @@ use crate::refmodel::rast;
 use crate::subject;
 use rrss::frontend::parser::parse;
 
+#[derive(Clone, Copy, Debug, PartialEq)]
 pub enum Judged {
     /// compared and equal
     Agree,
